@@ -1,6 +1,7 @@
 #!/bin/bash
 # Runs the repository's own test suite with the verif guard OFF (no -tags verif).
-# Serialised with a lock because src/node tests bind fixed TCP ports.
+# src/node tests bind fixed TCP ports: the suite runs in a private network
+# namespace when possible (so concurrent runs cannot collide), else under a lock.
 export GOFLAGS=-mod=mod GOPROXY=off GOSUMDB=off GOTOOLCHAIN=local
-cd /repo || exit 2
-exec flock /tmp/babble-nodetest.lock go test -vet=off -count=1 -timeout 25m ./... "$@"
+cd "${REPO_DIR:-/repo}" || exit 2
+exec "$(dirname "$(readlink -f "$0")")/netns_run.sh" go test -vet=off -count=1 -timeout 25m ./... "$@"
